@@ -221,6 +221,13 @@ def _scen(case, cov, viol):
     t = E.make_probe(case["seed"], 8, "nonrep_partial", "newcounty", office, "1" if office == "H" else None, weights="twoparty")
     t.update(id=t["id"].replace("AAcN", "AAcT"), county="AAcT", pev=0.0, r_dem=0, r_gop=0, r_turnout=0, b_dem=0, b_gop=6, b_turnout=7)
     units.append(t)
+    # counties that are almost completely counted (one unit each, 99 / 97 percent in): what is left to estimate is smaller
+    # than the minimal half-width 0.001 that every interval gets - the place where nesting across levels is decided by
+    # how the bounds are pushed apart, not by the quantiles
+    for k, pev in enumerate((99.0, 97.0, 99.5)):
+        a = E.make_probe(case["seed"], 11 + k, "reporting", "newcounty", office, "10" if office == "H" else None, weights="twoparty")
+        a.update(id=a["id"].replace("AAcN", f"AAcA{k}"), county=f"AAcA{k}", pev=pev)
+        units.append(a)
     # a classification that has completely reported (its interval is as narrow as it gets) and contains a large, lopsided
     # unit outside the model: prediction and interval of the group must be built from the same set of units
     for i, u in enumerate(u for u in units if u["role"] == "bg" and u["postal"] == "AA"):
@@ -253,6 +260,8 @@ def _scen(case, cov, viol):
                     cov["tiny_one_sided_groups"] += 1
                 if r.get("county_classification") == "s":
                     cov["complete_classification_groups"] += 1
+                if str(r.get("county_fips", "")).startswith("AAcA"):
+                    cov["almost_complete_groups"] += 1
                 if not (-1.0 <= r["pred_margin"] <= 1.0):
                     viol("group-margin-out-of-range", f"{case}: {tname} {ident} pred_margin={r['pred_margin']}")
                 if not r["pred_turnout"] >= 0:
@@ -368,4 +377,4 @@ def evaluate(case):
     return out
 
 
-REQUIRED_COUNTERS = {"rank_states": 1000000, "draw_matrices": 10000, "scen_group_rows": 100, "extreme_runs": 5, "zero_turnout_groups": 10, "tiny_one_sided_groups": 10, "complete_classification_groups": 10, "presidential_runs": 4, "presidential_correction_at_the_clip": 2}
+REQUIRED_COUNTERS = {"rank_states": 1000000, "draw_matrices": 10000, "scen_group_rows": 100, "extreme_runs": 5, "zero_turnout_groups": 10, "tiny_one_sided_groups": 10, "complete_classification_groups": 10, "almost_complete_groups": 30, "presidential_runs": 4, "presidential_correction_at_the_clip": 2}
